@@ -16,17 +16,17 @@ CHECKS = {
          'Every acknowledgement, PUBLISH count and push frame of the explored histories is matched against the per-subscriber inbox of the spec; a final quiesce requires that nothing owed is missing.'),
  'C05': ('model_checking', 'enumerated pipelines x segmentations (incl. 100 ... 10 000 requests in one write and several MiB of outstanding replies) written to the real server (each chunk a separate read via the loop-iteration hook), i-th reply paired with i-th request and with the server-side command log, TLC trace validation; TLC model checking of the transcribed parser for chunking independence (shared with C20)',
          'For every explored (pipeline, segmentation) the sequence of reply frames read by an independent RESP reader is, request by request, what the spec allows and what the server computed; hostile bytes are placed in every argument position; protocol violations must be answered by an error.'),
- 'C08': ('model_checking', 'TLC model checking of WATCH dirtiness against a ghost over all interleavings of 2 connections (MC_Txn) + enumerated scenarios <pre-state x write command x path x target>, two-watcher scenarios, random four-connection WATCH histories and the forms catalogue run by another connection (directly, inside EXEC, from a script) under a watcher of the named / of the other keys, on the real server + TLC trace validation',
+ 'C08': ('model_checking', 'TLC model checking of the implementation-shaped WATCH mechanism (spec/impl/ImplWatch.tla: registration counts, per-key counters, fast path, lazy expiry and sweeper stamps; pinned and wrong designs as controls that must fail) with behaviours sampled from it (TLC -simulate) replayed on the real server + TLC model checking of WATCH dirtiness against a ghost over all interleavings of 2 connections (MC_Txn) + enumerated scenarios <pre-state x write command x path x target>, two-watcher scenarios, random four-connection WATCH histories and the forms catalogue run by another connection (directly, inside EXEC, from a script) under a watcher of the named / of the other keys, on the real server + TLC trace validation',
          'For every enumerated scenario the EXEC reply (nil vs array) and the dataset afterwards are what the spec requires: abort when a watched entry changed by any listed means, no abort when nothing addressed it.'),
- 'C17': ('model_checking', 'TLC model checking of the authentication gate (MC_Txn with Password) + generated tests + every dispatched command name (also names outside the spec table, probed as unknown commands) sent unauthenticated on a requirepass server with a canary request behind it, unauthenticated connections killed while their pipeline is in flight in the same event-loop pass (loop gate hook) + TLC trace validation incl. the view of an authenticated control connection',
+ 'C17': ('model_checking', 'passwords with characters special to configuration syntaxes set through a configuration file read by the parser of ferrous itself (fvh serve --conf), every truncation refused + TLC model checking of the authentication gate (MC_Txn with Password) + generated tests + every dispatched command name (also names outside the spec table, probed as unknown commands) sent unauthenticated on a requirepass server with a canary request behind it, unauthenticated connections killed while their pipeline is in flight in the same event-loop pass (loop gate hook) + TLC trace validation incl. the view of an authenticated control connection',
          'Every command name the server dispatches is refused with one error reply and no effect for unauthenticated connections in the explored states; only the exact password authenticates.'),
- 'C18': ('model_checking', 'TLC model checking of the database frame property (MC_Txn/MC_C18) + generated tests + random multi-database histories with 16-way dumps + TLC trace validation',
+ 'C18': ('model_checking', 'scripts that try to SELECT (refused, or valid until the script ends - never beyond) in every way a script can end + TLC model checking of the database frame property (MC_Txn/MC_C18) + generated tests + random multi-database histories with 16-way dumps + TLC trace validation',
          'Every reply and the dump of all 16 databases after the explored histories match a 16-way model in which a command touches only the database selected on its connection at that time.'),
  'C02': ('model_checking', 'TLC model checking of the implementation-shaped expiry mechanism (spec/impl/ImplSweeper.tla) + an inductive invariant of that mechanism discharged by Apalache for unbounded time (spec/impl/ImplSweeperInd.tla, with the pinned design as a control that must fail) + random TTL histories, the forms catalogue over live and passed deadlines through direct / MULTI / script paths, stale-index scenarios (two sweeper passes) and the forced collect/delete race (sync-point hook) on the real server + TLC trace validation with deadline intervals on the observer clock',
          'Every read of the explored histories, through every command family, sees a key with a TTL exactly until its deadline (interval reasoning on the observer clock), and no key without a due deadline is ever deleted, including in the sweeper race window that the hook forces.'),
  'C13': ('model_checking', 'TLC model checking of the implementation-shaped mechanism (spec/impl/ImplBlocking.tla: registry queues, wake queue, event-loop phases, serve loop; pinned design behind switches) and of the blocking-pop reference relation with ghost conservation bags (MC_Blocking) + directed (incl. re-blocking after a multi-key serve, pushes inside EXEC / scripts, same key name in several databases in one pass, CLIENT KILL of waiters) and seeded random asynchronous schedules on the real server ordered by the server-side log of commands, wake-ups and time-outs (hooks H3/H4), registry snapshot (H5) at quiescent points + TLC trace validation',
          'For every explored schedule every reply, every served/time-out event, the final lists and the registry snapshot are what the reference relation allows: elements conserved, FIFO service per key, nobody stranded at quiescence, no leftover registration, time-outs not early and not missing.'),
- 'C09': ('model_checking', 'TLC trace validation of SAVE / kill / restart round trips of command-built datasets against the persistence relation of the spec (CmdSAVE/Restarted in spec/Ferrous.tla); the bounded instance is trivial, the states reported are those of the trace validation',
+ 'C09': ('model_checking', 'SAVE - changes of one kind - SAVE - restart histories for twelve kinds of change + TLC trace validation of SAVE / kill / restart round trips of command-built datasets against the persistence relation of the spec (CmdSAVE/Restarted in spec/Ferrous.tla); the bounded instance is trivial, the states reported are those of the trace validation',
          'For every explored dataset (every type, sizes around the length-encoding boundaries, all 16 databases, TTLs shorter and longer than the downtime, marker strings, infinite scores) the dump of all databases after the restart equals Restart(dump before SAVE), deadlines to clock granularity.'),
  'C19': ('model_checking', 'TLC model checking of the cursor mechanism (spec/impl/ImplScan.tla, repaired design; pinned design kept as a switch) + an inductive invariant of it discharged by Apalache for any number of mutations and any COUNT (spec/impl/ImplScanInd.tla) + full cursor iterations with interleaved additions/deletions on the real server + TLC trace validation of the iteration guarantee (stable/ever/returned sets per open iteration)',
          'For every explored full iteration of SCAN/HSCAN/SSCAN/ZSCAN (all COUNTs from 1, MATCH, TYPE, interleaved modifications) the union of returned elements contains every element present and matching throughout, contains nothing that never existed, and the iteration terminates.'),
